@@ -3,9 +3,10 @@ import GeomV.C04.Gen
 `switch i` with a panicking default) is the model's `nextB`: four corners in the documented order, then
 `panic("out of bounds")`. -/
 set_option linter.unusedVariables false
+set_option linter.unusedSectionVars false
 namespace GeomV.C04
 open GeomV
-variable {α : Type}
+variable {α : Type} [LT α] [DecidableLT α]
 
 theorem C04_tie_Bounds_Points (mn mx : Pt α) (i : Nat) :
     init (.bounds mn mx) = .ok (.one Gen.boundsPointsInit) ∧
